@@ -212,6 +212,93 @@ class Case:
         self.notes = {}
 
 
+# ---------------------------------------------------------------------------------------------------
+# case constructors + the "every header field with more than one digit" family
+# ---------------------------------------------------------------------------------------------------
+def mk_adf2x(which, t, cls, trailing=""):
+    norm = "1" if which == "adf22bmp" else "1/1000000"
+    c = Case(which, cls, W.write_adf2x(t, trailing=trailing), tokens=t, norm=norm)
+    c.expected = exp_adf2x(W.expected_adf2x(t, Fraction(norm)))
+    c.model = "parse_adas2x %s (lines FILE)" % qlit(Fraction(norm))
+    return c
+
+
+def mk_adf12(blocks, cls, annotate=True):
+    c = Case("adf12", cls, W.write_adf12(blocks, annotate=annotate), tokens=blocks)
+    c.expected = exp_adf12(W.expected_adf12(blocks))
+    c.model = "parse_adf12 (lines FILE)"
+    return c
+
+
+def mk_adf11(t, cls, install=None):
+    c = Case("adf11", cls, W.write_adf11(t), tokens=t, element=t["name"].lower(), z=t["z"])
+    if install:
+        c.install = install
+    c.expected = exp_adf11(W.expected_adf11(t))
+    c.model = "parse_adf11 rx11_src %d (S_ %s) (lines FILE)" % (t["z"], coq_string(t["name"].lower()))
+    return c
+
+
+def mk_adf15(t, cls, elname, ch, hf=None, fname="file.dat"):
+    c = Case("adf15", cls, W.write_adf15(t), fname=fname, tokens=t, element=elname, charge=ch, header_format=hf)
+    c.expected = exp_adf15(W.expected_adf15(t))
+    zel = dict(W.ELEMENTS)[elname]
+    c.model = "parse_adf15 rx15_src %s %s %s %s (lines FILE)" % tuple(
+        "true" if b else "false" for b in (hf == "hydrogen" or elname == "hydrogen", hf == "hydrogen-like", zel - ch == 1, "bnd#" in fname))
+    return c
+
+
+ADF15_CALL = {"hydrogen": ("hydrogen", 0), "hydrogen-like": ("carbon", 5), "full": ("carbon", 2)}
+ADF11_TYPES = ["scd", "acd", "ccd", "plt", "prb", "prc"]
+
+
+def multi_digit_cases(rng, formats=("adf2x", "adf12", "adf11", "adf15"), reps=1, python_only=False, quick=True):
+    """Files in which every count / index / charge field of the headers has two or three digits somewhere: all Z charge-state
+    blocks of elements with Z >= 10 (Z1 = 10 ... 36), two-digit IPRT/IGRD in resolved ADF11, grids with >= 10 and >= 100 points,
+    ADF15 with >= 10 and >= 100 blocks (ISEL and NSEL), >= 10 configurations, ADF12 with >= 10 blocks.  Grids are kept tiny where
+    the block count is large.  A 'one digit' slip in any header field has a failing input here."""
+    out = []
+    heavy = [e for e in W.ELEMENTS if e[1] >= 10]
+    for rep in range(reps):
+        if "adf11" in formats:
+            for el in [("neon", 10), rng.choice(heavy[1:])] + (heavy[1:] if reps > 1 else []):
+                t = W.gen_adf11(rng, nd=rng.choice([1, 2, 3, 9]) if el[1] < 20 else 1, nt=2, resolved=False, element=el, full=True, safe=True)
+                out.append(mk_adf11(t, "all %d charge states of %s, unresolved" % (el[1], el[0]), install=rng.choice(ADF11_TYPES)))
+            t = W.gen_adf11(rng, nd=rng.choice([1, 2]), nt=2, element=("neon", 10), meta=[1] * 11)
+            out.append(mk_adf11(t, "all 10 charge states of neon, resolved layout", install=rng.choice(ADF11_TYPES)))
+            el, meta = rng.choice([(("helium", 2), [1, 11, 1]), (("lithium", 3), [1, 10, 2, 1]), (("beryllium", 4), [2, 1, 12, 1])])
+            t = W.gen_adf11(rng, nd=rng.choice([1, 2]), nt=2, element=el, meta=meta)
+            out.append(mk_adf11(t, "resolved, metastable counts %s (two-digit IPRT/IGRD)" % meta, install=rng.choice(ADF11_TYPES)))
+            for nd, nt in ((rng.choice([100, 104, 121]), 1), (1, rng.choice([100, 101, 117])), (rng.choice([10, 12, 19]), rng.choice([10, 11]))):
+                t = W.gen_adf11(rng, nd=nd, nt=nt, resolved=False, element=("hydrogen", 1), safe=True)
+                out.append(mk_adf11(t, "grid nd=%d nt=%d" % (nd, nt), install=rng.choice(ADF11_TYPES)))
+        if "adf12" in formats:
+            blocks = W.gen_adf12(rng, nblocks=rng.choice([10, 11, 14]), small=True)
+            out.append(mk_adf12(blocks, "blocks=%d (two-digit count)" % len(blocks), annotate=bool(rng.getrandbits(1))))
+        if "adf15" in formats:
+            for nb, nd, nt in ((rng.choice([10, 12]), 1, 2), (rng.choice([100, 101, 113]), 1, 1), (1, rng.choice([10, 11, 17]), rng.choice([10, 12])),
+                               (1, 1, rng.choice([100, 103])), (1, rng.choice([100, 102]), 1)):
+                fmt = rng.choice(["hydrogen", "hydrogen-like", "full"])
+                t = W.gen_adf15(rng, fmt, nblocks=nb, nd=nd, nt=nt, ncfg=12 if fmt == "full" else None)
+                c = mk_adf15(t, "%s blocks=%d nd=%d nt=%d (multi-digit ISEL / counts)" % (fmt, nb, nd, nt), *ADF15_CALL[fmt])
+                # _extract_rate re-scans the file for every transition: >= 100 blocks are 10^4 header matches in the Coq matcher
+                # (~13 s); like the >= 100-block ADF12 file, the Coq side of this class runs in the thorough tier only
+                c.python_only = quick and nb >= 100
+                out.append(c)
+        if "adf2x" in formats:
+            for k, (neb, ndt, ntt) in enumerate(((rng.choice([100, 104]), 1, 1), (2, rng.choice([10, 11]), rng.choice([10, 13])), (1, rng.choice([100, 101]), rng.choice([100, 109])))):
+                which = ("adf21", "adf22bmp", "adf22bme")[(k + rep) % 3]
+                t = W.gen_adf2x(rng, neb=neb, ndt=ndt, ntt=ntt)
+                t["zt"] = rng.choice([10, 18, 26])
+                out.append(mk_adf2x(which, t, "grid %dx%d/%d ZT=%d (multi-digit counts)" % (neb, ndt, ntt, t["zt"])))
+    for c in out:
+        c.multi_digit = True
+        if python_only:
+            c.python_only = True
+            c.cls = "seeded search: " + c.cls
+    return out
+
+
 def gen_cases(ctx, E):
     rng = ctx.rng
     q = ctx.quick
@@ -287,7 +374,7 @@ def gen_cases(ctx, E):
         cases.append(c)
     # corpus of past disagreements / findings (token tables; the text is re-written by the writer), run with the rest
     cdir = os.path.join(os.path.dirname(os.path.dirname(os.path.abspath(__file__))), "corpus", "C08")
-    for fn in sorted(os.listdir(cdir)) if os.path.isdir(cdir) else []:
+    for fn in sorted(f for f in os.listdir(cdir) if f.endswith(".json")) if os.path.isdir(cdir) else []:
         ent = json.load(open(os.path.join(cdir, fn)))
         if ent["kind"] == "adf11":
             t = ent["tokens"]
@@ -377,6 +464,8 @@ def gen_cases(ctx, E):
     c.model_expected = False
     c.model = "parse_adf15 rx15_src false false false false (lines FILE)"
     cases.append(c)
+    # ---- multi-digit header fields, every format, both tiers ------------------------------------------------
+    cases += multi_digit_cases(rng, reps=1 if q else 3, quick=q)
     return cases
 
 
@@ -582,7 +671,9 @@ def run(ctx):
         ctx.log("translator problems: %s" % problems)
         # fall back to the patterns of the reference source so that the correspondence can still run and the
         # search can decide; the failed obligation already makes the run a violation
-        rx_text, _, patterns = c08_regex.translate("/repo") if REPO != "/repo" else (rx_text, None, patterns)
+        ref = os.path.join(os.path.dirname(os.path.dirname(os.path.abspath(__file__))), "corpus", "C08", "Regex_ref.v")
+        if os.path.exists(ref):
+            rx_text = open(ref).read()      # last translation of a source on which the whole check passed (committed)
     rx_ok = False
     if rx_text:
         rx_path = ctx.write_gen("Regex.v", rx_text)
@@ -595,6 +686,13 @@ def run(ctx):
 
     # ---- corpus first, then generated cases ------------------------------------------------------------------
     cases = gen_cases(ctx, E)
+    if problems:
+        # the translator tie is broken: before anything is concluded, the search is seeded with files that exercise the patterns of
+        # the parser(s) whose expressions changed -- the multi-digit / many-block families (implementation only, no Coq side)
+        fmts = tuple(f for f in ("adf11", "adf15") if any((f + ".py") in pr for pr in problems)) or ("adf11", "adf15")
+        extra = multi_digit_cases(ctx.rng, formats=fmts, reps=3, python_only=True)
+        ctx.log("translator tie broken: search seeded with %d extra %s files" % (len(extra), "/".join(fmts)))
+        cases += extra
     search_fails = []           # (case, known-key-or-None, claim, detail)
     n_roundtrip = 0
     for c in cases:
